@@ -46,9 +46,12 @@ def main() -> int:
     ap.add_argument("--no-shrink", action="store_true")
     ap.add_argument("--no-evidence", action="store_true")
     ap.add_argument("--keep-going", action="store_true", help="do not stop at the first violation")
+    ap.add_argument("--chunk", type=int, help="run indices per forked chunk (default: per simulation)")
     a = ap.parse_args()
     sim = load_sim(a.pid)
     from simkit import pool
+    if a.chunk:
+        sim.chunk = a.chunk
     if a.replay:
         return pool.replay(sim, a.replay)
     return pool.run_batch(sim, a.tier, a.seed, runs=a.runs, workers=a.workers, budget_s=a.budget,
